@@ -9,7 +9,7 @@
 use crate::util::{catch, Ctx, Rng};
 use varpulis_core::Value;
 use varpulis_runtime::event::Event;
-use varpulis_runtime::sase::{CompareOp, MatchResult, Predicate, SaseEngine, SasePattern};
+use varpulis_runtime::sase::{CompareOp, MatchResult, Predicate, SaseEngine, SasePattern, StateType};
 use varpulis_runtime::Engine;
 
 pub const NAMES: &[&str] = &["C01", "C02"];
@@ -299,6 +299,49 @@ fn gen_stream(rng: &mut Rng, pat: &Pat, len: usize) -> Vec<Ev> {
 // running the two renderings
 // ---------------------------------------------------------------------------------------------
 
+// ---------------------------------------------------------------------------------------------
+// dump of the real compiled NFA (`SaseEngine::nfa()`), in the format of Driver/Sase.lean `fmtNfa`
+// ---------------------------------------------------------------------------------------------
+
+fn dump_value(v: &Value) -> String {
+    match v {
+        Value::Int(i) => format!("i:{}", i),
+        Value::Float(f) => format!("f:{}", (*f * 4.0) as i64),
+        Value::Str(s) => format!("s:{}", s),
+        Value::Bool(b) => format!("b:{}", if *b { 1 } else { 0 }),
+        other => format!("?:{}", other),
+    }
+}
+
+fn dump_op(op: CompareOp) -> &'static str {
+    match op { CompareOp::Eq => "eq", CompareOp::NotEq => "ne", CompareOp::Lt => "lt", CompareOp::Le => "le", CompareOp::Gt => "gt", CompareOp::Ge => "ge" }
+}
+
+fn dump_pred(p: &Predicate) -> String {
+    match p {
+        Predicate::Compare { field, op, value } => format!("c {} {} {}", field, dump_op(*op), dump_value(value)),
+        Predicate::CompareRef { field, op, ref_alias, ref_field } => format!("r {} {} {} {}", field, dump_op(*op), ref_alias, ref_field),
+        Predicate::And(l, r) => format!("and {} {}", dump_pred(l), dump_pred(r)),
+        Predicate::Or(l, r) => format!("or {} {}", dump_pred(l), dump_pred(r)),
+        Predicate::Not(q) => format!("not {}", dump_pred(q)),
+        Predicate::Expr(_) => "expr".to_string(),
+    }
+}
+
+fn dump_ids(ids: &[usize]) -> String {
+    if ids.is_empty() { "-".into() } else { ids.iter().map(|i| i.to_string()).collect::<Vec<_>>().join(",") }
+}
+
+fn dump_nfa(eng: &SaseEngine) -> String {
+    eng.nfa().states.iter().map(|s| {
+        let st = match s.state_type { StateType::Start => "start", StateType::Normal => "normal", StateType::Kleene => "kleene",
+            StateType::Accept => "accept", StateType::Negation => "negation", StateType::And => "and" };
+        format!("{};{};{};{};{};{};{};{};{}", st, s.event_type.clone().unwrap_or("_".into()), s.alias.clone().unwrap_or("_".into()),
+            s.predicate.as_ref().map(dump_pred).unwrap_or("_".into()), s.postponed_predicate.as_ref().map(dump_pred).unwrap_or("_".into()),
+            dump_ids(&s.epsilon_transitions), dump_ids(&s.transitions), if s.self_loop { 1 } else { 0 }, if s.has_epsilon_to_accept { 1 } else { 0 })
+    }).collect::<Vec<_>>().join(" | ")
+}
+
 fn fmt_api(ms: &[MatchResult]) -> String {
     let mut out: Vec<String> = ms.iter().map(|m| {
         let st: Vec<String> = m.stack.iter().map(|e| format!("{}{}", idx_of(&e.event), e.alias.clone().unwrap_or("_".into()))).collect();
@@ -435,6 +478,10 @@ pub fn run(ctx: &mut Ctx, name: &str) {
     for (pi, pat) in pats.iter().enumerate() {
         count_pattern(ctx, pat);
         let program = pat.vpl().map(|src| vpl_parse(&src));
+        // the compiled NFA of this pattern against the model's `compile` (theorem compile_linear speaks about it)
+        ctx.directive(&pat.header(name));
+        ctx.case("nfa", &dump_nfa(&pat.sase()));
+        ctx.count("nfa-dump");
         let ns = if pi < nfixed { streams * 3 } else { streams };
         for _ in 0..ns {
             let len = ctx.rng.range(1, maxlen as i64) as usize;
